@@ -52,11 +52,15 @@ def directives (h : Header) : List (Str × Option Str) :=
 structure Reader where
   read : Header → Str → Option (Option Str)
 
-/-- the RFC reading: the argument of the LAST occurrence, except that an unqualified no-cache
-    (the stricter form) is not relaxed by another occurrence -/
+/-- the RFC reading: the argument of the LAST occurrence, except for no-cache: an unqualified one
+    (the stricter form) is not relaxed by another occurrence, and several qualified ones name the
+    fields of all their lists (each occurrence is a statement of the origin; none withdraws another) -/
 def rfcRead (h : Header) (name : Str) : Option (Option Str) :=
   let occ := (directives h).filter (·.1 = name)
-  if name = (str% "no-cache") && occ.any (fun d => d.2 = none || d.2 = some []) then some none
+  if name = (str% "no-cache") then
+    if occ.isEmpty then none
+    else if occ.any (fun d => d.2 = none || d.2 = some []) then some none
+    else some (some (joinWith [','] (occ.filterMap (·.2))))
   else occ.getLast?.map (·.2)
 
 def rfc : Reader := ⟨rfcRead⟩
